@@ -46,6 +46,11 @@ func (w *World) verifyFunc(fc *FuncContract, props []string) (res *UnitResult) {
 				}
 				return
 			}
+			if f, ok := r.(fatalUnsupported); ok {
+				res.Err = "REFUSED (outside the sound subset): " + f.msg
+				res.Obls = nil
+				return
+			}
 			panic(r)
 		}
 	}()
@@ -96,6 +101,10 @@ func (w *World) verifyFunc(fc *FuncContract, props []string) (res *UnitResult) {
 		x.curBlock = r.blk
 		envR := x.envFor(fn, r.st, x.entry, r.results)
 		for _, cl := range fc.Ensures {
+			if cl.Def {
+				x.ledger["definitional postcondition of "+fc.Name+" (names its result by spec functions; not proved): "+cl.Text] = true
+				continue
+			}
 			t := x.evalBool(cl.Expr, envR)
 			x.oblige(r.st, "ensures", "postcondition: "+cl.Text+r.via, r.pos, t, cl.Props, cl.Text)
 		}
@@ -107,8 +116,10 @@ func (w *World) verifyFunc(fc *FuncContract, props []string) (res *UnitResult) {
 	}
 	if len(rets) > 0 {
 		var rs []*Term
-		for _, r := range rets {
-			rs = append(rs, r.st.reach)
+		for k, r := range rets {
+			if k < 6 {
+				rs = append(rs, r.st.reach)
+			}
 		}
 		x.coverAny("some return is reachable", fn, c.Or(rs...), fc.Props)
 	}
